@@ -1,6 +1,7 @@
 """C08 - parsing terminates with balanced cycle-tracker state.
 
 R8.1  enter/exit typestate on the CFG of every function that calls the tracker
+R8.8  parsed_schemas only grows during a load (no del / pop / clear outside ParsingContext's reset API): tracker state and registry stay in step
 R8.2  ownership of the tracker state (who may write recursion_depth / schema_stack / schema_states)
 R8.3  every recursion cycle of the parser's call graph goes through the gate (_parse_schema)
 R8.4  the gate bounds depth (increment before check; depth test dominates CONTINUE_PARSING)
@@ -216,6 +217,7 @@ def run(repo: Repo, rep: Report, tier: str) -> None:
             rep.violation("R8.1", f"{sub} delegates", f"{w.fq}|no-delegate",
                           f"a path through the wrapper does not call {wname}: {cfg.describe_path(path or [])}", w.loc())
 
+    rule_registry_monotone(repo, rep, "R8.8")
     # ---------------------------------------------------------------- R8.2 state ownership
     allowed_writers = {
         f"{UCD}:unified_cycle_check": "the gate itself",
@@ -524,3 +526,38 @@ def _find_cycle(succ: Dict[str, Set[str]]) -> Optional[List[str]]:
                 stack.append((nxt, iter(sorted(succ.get(nxt, ())))))
                 path.append(nxt)
     return None
+
+
+# ------------------------------------------------------------------------------------------------ R8.8 the registry only grows while parsing
+def rule_registry_monotone(repo: Repo, rep, rule: str = "R8.8") -> None:
+    """The gate answers RETURN_PLACEHOLDER / RETURN_EXISTING from the tracker's *state* of a name and the parser then fetches
+    `parsed_schemas[name]`.  State and registry stay in step only if nothing removes a registry entry while a load is in progress:
+    in the loader and parsing packages `parsed_schemas` is never deleted from / popped / cleared (the reset API of ParsingContext excepted)."""
+    n_fn = 0
+    bad = []
+    for fn in repo.all_functions():
+        mn = "." + fn.module.name + "."
+        if ".core.parsing." not in mn and ".core.loader." not in mn:
+            continue
+        n_fn += 1
+        reset_api = fn.cls is not None and fn.cls.name == "ParsingContext" and any(k in fn.name for k in ("reset", "clear"))
+        for n in own_nodes(fn.node):
+            tgt = None
+            if isinstance(n, ast.Delete):
+                for t in n.targets:
+                    base = t.value if isinstance(t, ast.Subscript) else t
+                    if isinstance(base, ast.Attribute) and base.attr == "parsed_schemas":
+                        tgt = n
+            elif isinstance(n, ast.Call) and isinstance(n.func, ast.Attribute) and n.func.attr in ("pop", "popitem", "clear") \
+                    and isinstance(n.func.value, ast.Attribute) and n.func.value.attr == "parsed_schemas":
+                tgt = n
+            if tgt is not None and not reset_api:
+                bad.append((fn, tgt))
+    rep.count(f"{rule}:functions", n_fn)
+    rep.require(n_fn >= 40, f"{rule}: only {n_fn} functions of core.parsing / core.loader analysed (floor 40)")
+    for fn, n in bad:
+        rep.violation(rule, f"{fn.module.relpath}:{fn.qualname} removes a registry entry", f"{fn.fq}|registry-entry-removed",
+                      f"`{norm(n)[:70]}` takes a name out of parsed_schemas while its tracker state is kept: the gate still answers 'placeholder/existing' for it, "
+                      "_parse_schema finds nothing to return and the declared schema is missing from the result ('... was not parsed')", fn.loc(n))
+    if not bad:
+        rep.ok(rule, "core.parsing / core.loader", f"{n_fn} functions: no entry is ever removed from parsed_schemas outside ParsingContext's reset API", "src/pyopenapi_gen/core:1")
